@@ -3,7 +3,7 @@ use crate::{guard, Ints};
 use chrono::prelude::*;
 use chrono::Days;
 use rateslib::calendars::{
-    get_eom, get_imm, get_roll, is_eom, is_imm, is_leap_year, Cal, DateRoll, Modifier, RollDay,
+    get_eom, get_imm, get_roll, is_eom, is_imm, is_leap_year, Cal, CalType, DateRoll, Modifier, NamedCal, RollDay, UnionCal,
 };
 
 pub fn epoch() -> NaiveDateTime {
@@ -44,10 +44,21 @@ pub fn run(op: &str, a: &Ints) -> Ints {
             None => vec![0],
         },
         // add_months with Modifier::Act on a calendar without holidays
+        // a[4] (optional, default 0): WHICH implementor of DateRoll the month arithmetic is asked of - every one of them is an
+        // always-open calendar, so the answer is the same: 0 Cal, 1 UnionCal, 2 NamedCal("all"), 3 CalType::Cal,
+        // 4 CalType::UnionCal, 5 CalType::NamedCal
         "addm" => guard(|| {
             let cal = Cal::new(vec![], vec![]);
             let d = from_n(a[0]);
-            let r = cal.add_months(&d, a[1] as i32, &Modifier::Act, &rollday(a[2], a[3]), false);
+            let (k, m, rd) = (a[1] as i32, Modifier::Act, rollday(a[2], a[3]));
+            let r = match a.get(4).copied().unwrap_or(0) {
+                1 => UnionCal::new(vec![cal], None).add_months(&d, k, &m, &rd, false),
+                2 => NamedCal::try_new("all").map_err(|_| ())?.add_months(&d, k, &m, &rd, false),
+                3 => CalType::Cal(cal).add_months(&d, k, &m, &rd, false),
+                4 => CalType::UnionCal(UnionCal::new(vec![cal], None)).add_months(&d, k, &m, &rd, false),
+                5 => CalType::NamedCal(NamedCal::try_new("all").map_err(|_| ())?).add_months(&d, k, &m, &rd, false),
+                _ => cal.add_months(&d, k, &m, &rd, false),
+            };
             Ok(vec![to_n(&r)])
         }),
         "roll" => guard(|| match get_roll(a[0] as i32, a[1] as u32, &rollday(a[2], a[3])) {
@@ -95,7 +106,7 @@ pub fn run(op: &str, a: &Ints) -> Ints {
         "addmr" => {
             let mut out = vec![];
             for k in a[1]..a[1] + a[2] {
-                let r = run("addm", &vec![a[0], k, a[3], a[4]]);
+                let r = run("addm", &vec![a[0], k, a[3], a[4], a.get(5).copied().unwrap_or(0)]);
                 out.push(if r[0] == 0 { r[1] } else { -1000000 - r[0] });
             }
             vec![crate::hash(&out)]
